@@ -258,7 +258,7 @@ def subject_evidence(rule):
 
 SPECS['C05'] = dict(
     title='Subject delivers to exactly the live, unmuted observers, in order',
-    jobs=model_jobs('h_subject', 'C05', (24000, 1000000)),
+    jobs=model_jobs('h_subject', 'C05', (24000, 1000000), variants_thorough=('asan', 'asan-O0')),
     require={'any': {'histories': 5000, 'notifies': 50000, 'staleRejected': 5000, 'lazyRemovals': 5000, 'handleMoves': 5000}},
     evidence=subject_evidence('case = seeded history (1-150 steps, up to 40 observers, a second Subject as source of foreign handles with equal numeric ids) of subscribe '
                               '(callable, self-view callable, unique_ptr, raw pointer), unsubscribe via handle / via subject, mute, unmute, invalidate, handle move-construct/-assign, '
@@ -272,7 +272,7 @@ SPECS['C05'] = dict(
 
 SPECS['C10'] = dict(
     title='Subject tolerates callbacks that change it during notify',
-    jobs=model_jobs('h_subject', 'C10', (24000, 1000000)),
+    jobs=model_jobs('h_subject', 'C10', (24000, 1000000), variants_thorough=('asan', 'asan-O0')),
     require={'any': {'histories': 5000, 'inRoundActions': 50000, 'selfUnsub': 5000, 'unsubOther': 3000, 'nestedNotifies': 5000}},
     evidence=subject_evidence('C05 histories whose callbacks run seeded scripts while being notified: subscribe a new observer, unsubscribe self / an already-called / a not-yet-called observer '
                               '(via handle or subject), mute, unmute, invalidate any target, call notify again (nesting <= 3). The script acts on the real Subject and on the model together; '
@@ -302,7 +302,7 @@ ROUTER_ASSUME = ['signature discipline: the argument signature is a function of 
 
 SPECS['C06'] = dict(
     title='SubjectRouter reaches exactly the matching observers',
-    jobs=model_jobs('h_router', 'C06', (8000, 400000)),
+    jobs=model_jobs('h_router', 'C06', (8000, 400000), variants_thorough=('asan', 'asan-O0')),
     require={'any': {'histories': 2000, 'wildcardNotifies': 20000, 'multiReceiverNotifies': 5000, 'byValueMultiReceiver': 1000}},
     evidence=router_evidence('case = seeded history (2-70 steps) of subscribe / unsubscribe / mute / invalidate / shrink / notify on SubjectRouter or ConcurrentSubjectRouter (one thread) over a colliding name '
                              'alphabet {a, ab, a.b, a+, b, ""} at depth 1-3, patterns with concrete, wildcard and regex levels (including regexes matching several siblings, nothing, the empty name, and '
@@ -314,7 +314,7 @@ SPECS['C06'] = dict(
 
 SPECS['C13'] = dict(
     title='shrink is invisible to delivery; exists/depth consistent',
-    jobs=model_jobs('h_router', 'C13', (6000, 300000)),
+    jobs=model_jobs('h_router', 'C13', (6000, 300000), variants_thorough=('asan', 'asan-O0')),
     require={'any': {'histories': 2000, 'shrinks': 10000, 'removedKeys': 3000, 'fullShrinks': 2000, 'existsProbes': 50000, 'probesAfterShrink': 30000}},
     evidence=router_evidence('C06 generator weighted towards unsubscribe / invalidate / shrink (concrete, regex, wildcard patterns of depth 1-4) / re-subscribe. After every operation the stored-key set is measured '
                              'with exists() on all 258 concrete keys of the universe: prefix-closed; grows only by the prefixes of a subscribed key; shrinks only in shrink, and then only by dead keys whose parent '
@@ -331,7 +331,7 @@ SPECS['C13'] = dict(
 
 SPECS['C16'] = dict(
     title='Observable notifies exactly on change, with the new value',
-    jobs=model_jobs('h_observable', 'C16', (40000, 1500000)),
+    jobs=model_jobs('h_observable', 'C16', (40000, 1500000), variants_thorough=('asan', 'asan-O0')),
     require={'any': {'histories': 5000, 'changingOps': 100000, 'nonChangingOps': 100000, 'eqEqualButDifferentAssignments': 1000, 'subscriberCalls': 50000}},
     evidence=lambda agg, samples, distinct, tier: cov(
         agg.get('histories', 0), distinct,
@@ -569,7 +569,7 @@ def race_jobs(tier, seed):
     reps = 5 if q else 25
     ops = 'ops=%d' % (60000 if q else 120000)
     k = 0
-    for variant in (('tsan',) if q else ('tsan', 'tsan-clang')):
+    for variant in ('tsan',):   # clang 14 cannot compile Subject.h (parenthesised aggregate initialisation, P0960)
         for rep in range(reps if variant == 'tsan' else 6):
             for w in range(4):
                 jobs.append(Job('h_race', variant, pseed(seed, 'C15', k), w, 1, [ops, 'poolrounds=%d' % (40 if q else 80), 'threadstarts=%d' % (600 if q else 2000)],
